@@ -421,7 +421,7 @@ fn emit_run(cx: &mut Ctx, ver: u32, frags: &[Vec<u8>], r: &RunResult, with_maxre
 
 /// sequences of well-formed messages under every single split point / random multi-splits
 fn faithful(cx: &mut Ctx, work: &std::path::Path) {
-	let nseq = if cx.thorough { 60 } else { 14 };
+	let nseq = if cx.thorough { 75 } else { 18 };
 	for si in 0..nseq {
 		let ver = VERSIONS[si % 4];
 		let nmsg = 1 + cx.rng.below(4) as usize;
